@@ -248,7 +248,12 @@ impl Prop for C02 {
         let s = (gen::node_strategy(&span_cfg()), gen::flags_strategy("ims"), gen::raw_inputs(8, 10))
             .prop_map(|(node, flags, inputs)| AstCase { node, flags, inputs: Inputs::Raw(inputs) })
             .boxed();
-        vec![Part { name: "random".into(), strategy: s, cases: tier.pick(250_000, 5_000_000) }]
+        let mut sc = span_cfg();
+        sc.w_empty = 0;
+        vec![
+            Part { name: "random".into(), strategy: s, cases: tier.pick(250_000, 5_000_000) },
+            Part { name: "scaled".into(), strategy: super::c01::scaled_part(&sc, "ims"), cases: tier.pick(30_000, 400_000) },
+        ]
     }
     fn enumerations(&self, tier: Tier) -> Vec<(String, String, Box<dyn Iterator<Item = AstCase> + Send>)> {
         // every small pattern over two letters, dot and a class, with every quantifier form, on every short input
